@@ -42,6 +42,8 @@ def default_outcome(w):
         out.append([arn, per[arn]])
     return json.dumps(out, sort_keys=True)
 
+EFFORT_AFTER_VIOLATION = 400000     # executed steps (new + replayed) per scenario
+
 def explore(scenario, monitor_factory, bound=None, max_states=200000, max_depth=400, wall=None,
             outcome=default_outcome, stop_on_first=False, on_complete=None, prefix=None, preamble=None, only=None):
     """
@@ -61,6 +63,11 @@ def explore(scenario, monitor_factory, bound=None, max_states=200000, max_depth=
             break
         if res.states >= max_states:
             res.caps.append("states")
+            break
+        if res.violations and res.transitions + res.replayed_steps > EFFORT_AFTER_VIOLATION:
+            # a scenario that has already produced a counter-example is not explored to the bitter end once it turns out to be
+            # huge (a defect that multiplies events multiplies states): reported as a cap, the counter-examples found stand
+            res.caps.append("effort-after-violation")
             break
         mons = monitor_factory()
         w = World(scenario, mons)
